@@ -456,6 +456,8 @@ fn c12_waiter(rep: &mut Report, tier: Tier) {
 enum PeerEv {
     Ack(usize),
     Cut(usize),
+    /// a client transaction arrives: the next batch is sealed and broadcast
+    Tx,
 }
 
 /// (b) the whole mempool stack: acknowledgements released in every order, connections cut
@@ -468,6 +470,7 @@ fn run_c12_stack(stakes: &[u32], own: usize, nbatches: usize, evs: &[PeerEv]) ->
     // per peer: live connection index, frames read and not answered, acknowledged batches
     let mut unanswered: BTreeMap<usize, Vec<(usize, Vec<u8>)>> = BTreeMap::new(); // peer -> (conn idx, frame)
     let mut acked: Vec<BTreeSet<usize>> = vec![BTreeSet::new(); nbatches];
+    let mut sealed = nbatches;
     let mut frames_sent: Vec<Vec<u8>> = Vec::new();
     let mut delivered: Vec<Digest> = Vec::new();
     let mut steps = 0u64;
@@ -532,12 +535,17 @@ fn run_c12_stack(stakes: &[u32], own: usize, nbatches: usize, evs: &[PeerEv]) ->
                         let (ci, f) = list.remove(0);
                         node.outs[ci].write_frame(b"Ack");
                         if let Some(bi) = frames_sent.iter().position(|x| *x == f) {
-                            if bi < nbatches {
+                            if bi < acked.len() {
                                 acked[bi].insert(*p);
                             }
                         }
                     }
                 }
+            }
+            PeerEv::Tx => {
+                node.deliver(TX_PORT0 + own as u16, &[sealed as u8 + 1, 2, 3, 4, 5]);
+                sealed += 1;
+                acked.push(BTreeSet::new());
             }
             PeerEv::Cut(p) => {
                 // close the peer's live connection: what it had read and not answered is lost
@@ -602,9 +610,20 @@ pub fn c12(tier: Tier) -> i32 {
         rec(maxlen, &alphabet, &mut Vec::new(), &mut seqs);
         for s in seqs {
             jobs.push((stakes.clone(), *own, 1, s.clone()));
-            if true {
-                jobs.push((stakes.clone(), *own, 2, s));
+            jobs.push((stakes.clone(), *own, 2, s));
+        }
+        // a second (and third) batch sealed at any point between the peer events
+        let mut alpha2 = alphabet.clone();
+        alpha2.push(PeerEv::Tx);
+        let mut seqs2 = Vec::new();
+        rec(maxlen + 1, &alpha2, &mut Vec::new(), &mut seqs2);
+        for s in seqs2 {
+            let ntx = s.iter().filter(|e| **e == PeerEv::Tx).count();
+            let ncut = s.iter().filter(|e| matches!(e, PeerEv::Cut(_))).count();
+            if ntx == 0 || ntx > 2 || ncut > 1 || s[0] == PeerEv::Tx {
+                continue;
             }
+            jobs.push((stakes.clone(), *own, 1, s));
         }
     }
     let results = par_map(jobs.len(), ncpu(), |i| {
@@ -630,7 +649,7 @@ pub fn c12(tier: Tier) -> i32 {
     rep.add("states", jobs.len() as u64);
     rep.add("transitions", steps);
     rep.add("traces_validated_against_impl", jobs.len() as u64);
-    rep.set("stack_bounds", json!({"committees_and_own_node": committees, "peer_event_sequence_length": maxlen, "alphabet":"Ack(peer) = answer the oldest frame the peer has read on its live connection; Cut(peer) = the peer closes its connection before answering (the sender reconnects and retransmits)", "batches_in_flight":"1 and 2"}));
+    rep.set("stack_bounds", json!({"committees_and_own_node": committees, "peer_event_sequence_length": maxlen, "alphabet":"Ack(peer) = answer the oldest frame the peer has read on its live connection; Cut(peer) = the peer closes its connection before answering (the sender reconnects and retransmits)", "batches_in_flight":"1 and 2 sealed up front; plus sequences one event longer in which 1-2 further batches are sealed at any point between the peer events (at most one cut)"}));
     rep.set("exhaustive", json!(true));
     rep.sample(json!({"stack_execution": format!("{:?}", jobs[jobs.len() / 3])}));
     rep.set("explanation", json!("(a) the real QuorumWaiter fed with harness-owned acknowledgement handles: every acknowledgement order, every set of never-answering peers, 1-2 queued batches, equal and unequal stakes, each member as the own node; after every single acknowledgement the batch must be on the output channel iff own + acknowledged stake >= quorum. (b) the real mempool stack (tx receiver, BatchMaker, ReliableSender, QuorumWaiter, Processor) with the harness as the three peers: every sequence of Ack/Cut events; the digest may reach consensus / the batch may reach the store only when peers that really answered hold a quorum with the node."));
